@@ -31,6 +31,7 @@ type LoopSpec struct {
 type SplitHint struct {
 	Expr   *CE
 	Lo, Hi int64
+	Tag    string // applies to the clause with this tag only ("" = all)
 }
 
 type FuncContract struct {
@@ -52,6 +53,7 @@ type FuncContract struct {
 	Splits     []*SplitHint
 	Tier       string // "" | "thorough"
 	AllocBound *CE
+	Imports    []string // "callee[tag]": quantified ensures of callees to assume at call sites
 	Abstract   []string // callee names to abstract (havoc) explicitly instead of inlining
 	File       string
 	Line       int
@@ -99,7 +101,7 @@ var ckeywords = map[string]bool{
 	"spec": true, "func": true, "lemma": true, "axiom": true, "prop": true, "mode": true, "requires": true,
 	"ensures": true, "modifies": true, "nopanic": true, "nooverflow": true, "pure": true,
 	"trusted": true, "inline": true, "loop": true, "use": true, "split": true, "tier": true,
-	"induct": true, "ih": true, "allocbound": true, "abstract": true, "ghost": true, "uninterp": true, "where": true,
+	"induct": true, "ih": true, "allocbound": true, "abstract": true, "ghost": true, "uninterp": true, "where": true, "import": true,
 }
 
 func parseParams(s string) ([]Param, error) {
@@ -351,10 +353,17 @@ func loadContracts(path string) (*PkgContracts, error) {
 					curL.Uses = append(curL.Uses, c)
 				}
 			case "split":
+				stag := ""
+				if strings.HasPrefix(rest, "[") {
+					j := strings.Index(rest, "]")
+					stag = rest[1:j]
+					rest = strings.TrimSpace(rest[j+1:])
+				}
 				sh, err := parseSplit(l, rest)
 				if err != nil {
 					return nil, err
 				}
+				sh.Tag = stag
 				if curF != nil {
 					curF.Splits = append(curF.Splits, sh)
 				} else {
@@ -407,6 +416,11 @@ func loadContracts(path string) (*PkgContracts, error) {
 					pc.Assumptions = append(pc.Assumptions, fmt.Sprintf("trusted contract %s (%s:%d)", curF.Name, path, l.line))
 				case "inline":
 					curF.Inline = true
+				case "import":
+					// import callee[tag]: also assume the callee's ghost-quantified ensures clause at call sites
+					for _, f := range strings.Fields(strings.ReplaceAll(rest, ",", " ")) {
+						curF.Imports = append(curF.Imports, f)
+					}
 				case "abstract":
 					curF.Abstract = append(curF.Abstract, strings.Fields(strings.ReplaceAll(rest, ",", " "))...)
 				case "allocbound":
